@@ -189,6 +189,28 @@ def guard_chain(node: ast.AST, stop: Optional[ast.AST] = None) -> List[Tuple[ast
     return out
 
 
+def guard_atoms(node: ast.AST, stop: Optional[ast.AST] = None) -> List[Tuple[ast.AST, bool]]:
+    """guard_chain flattened to atomic facts: a conjunction that holds contributes each conjunct, a disjunction that
+    fails contributes each disjunct negated, leading `not`s are folded into the polarity."""
+    out: List[Tuple[ast.AST, bool]] = []
+    work = list(guard_chain(node, stop=stop))
+    while work:
+        t, pol = work.pop(0)
+        inner, pos = strip_not(t)
+        eff = pol == pos
+        if isinstance(inner, ast.BoolOp) and ((isinstance(inner.op, ast.And) and eff) or (isinstance(inner.op, ast.Or) and not eff)):
+            work = [(v, eff) for v in inner.values] + work
+            continue
+        out.append((inner, eff))
+    return out
+
+
+def branch_when(if_node: ast.If, truth: bool) -> list:
+    """Statements of the arm taken when the condition with leading `not`s stripped evaluates to `truth`."""
+    _, pos = strip_not(if_node.test)
+    return if_node.body if (truth == pos) else if_node.orelse
+
+
 def strip_not(test: ast.AST) -> Tuple[ast.AST, bool]:
     """(inner, positive) with leading `not`s removed."""
     pos = True
